@@ -339,4 +339,262 @@ theorem foldl_inv {F : Facts} (hG : Good F) : ∀ (ops : List Op) (s : St), Inv 
 theorem inv_run {F : Facts} (hG : Good F) (ops : List Op) : Inv (run F ops) :=
   foldl_inv hG ops {} inv_init
 
+/-! ### independence of packages -/
+
+/-- everything observable about version j: its package, its code, its script
+    constants, and what each of its live handles returns (now, and at creation) -/
+structure Obs where
+  pkgLive : Bool
+  mapped : Bool
+  codeReleased : Nat
+  constsReleased : List Nat
+  calls : List (CallRes × CallRes)
+  deriving DecidableEq, Repr
+
+def obs (s : St) (j : Nat) : Obs :=
+  { pkgLive := s.pkgs.contains j
+    mapped := s.mapped j
+    codeReleased := s.relCount (.code j)
+    constsReleased := (List.range (s.info j).nconst).map (fun c => s.relCount (.scriptConst j c))
+    calls := (s.hs.filter (fun h => h.k == j)).map (fun h => (callRes s h.k, h.expect)) }
+
+/-- the package an operation works on -/
+def target (s : St) : Op → Option Nat
+  | .compile _ k _ _ _ _ => some k
+  | .getHandle k => some k
+  | .dropPackage k => some k
+  | .cloneHandle i => (s.hs[i]?).map (·.k)
+  | .call i => (s.hs[i]?).map (·.k)
+  | .dropHandle i => (s.hs[i]?).map (·.k)
+  | _ => none
+
+theorem filter_eraseIdx_of_not {α : Type} (p : α → Bool) :
+    ∀ (l : List α) (i : Nat) (h : i < l.length), p l[i] = false → (l.eraseIdx i).filter p = l.filter p
+  | [], i, h, _ => by simp at h
+  | a :: l, 0, _, hp => by
+    simp only [List.getElem_cons_zero] at hp
+    simp [hp]
+  | a :: l, i + 1, h, hp => by
+    simp only [List.getElem_cons_succ] at hp
+    have ih := filter_eraseIdx_of_not p l i (by simpa using h) hp
+    simp [List.eraseIdx_cons_succ, List.filter_cons, ih]
+
+/-- what an operation on package k leaves alone for j ≠ k -/
+local macro "triv" : tactic => `(tactic| first | trivial | exact Iff.rfl)
+
+theorem frame {F : Facts} (hG : Good F) {s : St} (hI : Inv s) (op : Op) (hv : valid s op = true) (k j : Nat)
+    (ht : target s op = some k) (hjk : j ≠ k) :
+    (step F s op).pkgs.count j = s.pkgs.count j
+      ∧ (step F s op).hs.filter (fun h => h.k == j) = s.hs.filter (fun h => h.k == j)
+      ∧ (step F s op).info j = s.info j
+      ∧ (j ∈ (step F s op).compiled ↔ j ∈ s.compiled) := by
+  have hc := hI.toInvCore
+  have hkj : (k == j) = false := by simpa using fun e => hjk e.symm
+  cases op with
+  | buildRuntime r => simp [target] at ht
+  | registerConst r => simp [target] at ht
+  | registerClosure r => simp [target] at ht
+  | dropRuntime r => simp [target] at ht
+  | compile r k' n uc uf v =>
+    simp only [target, Option.some.injEq] at ht; subst ht
+    simp only [step]
+    refine ⟨?_, (by triv), ?_, ?_⟩
+    · show (k' :: s.pkgs).count j = _
+      rw [List.count_cons]; simp [hkj]
+    · exact upd_other _ _ _ _ hjk
+    · show j ∈ k' :: s.compiled ↔ _
+      simp [hjk]
+  | getHandle k' =>
+    simp only [target, Option.some.injEq] at ht; subst ht
+    simp only [step]
+    refine ⟨(by triv), ?_, (by triv), (by triv)⟩
+    show (s.hs ++ [_]).filter _ = _
+    simp [List.filter_append, hkj]
+  | cloneHandle i =>
+    simp only [target] at ht
+    cases hi : s.hs[i]? with
+    | none => simp [hi] at ht
+    | some h =>
+      simp only [hi, Option.map_some, Option.some.injEq] at ht
+      simp only [step, hi]
+      refine ⟨(by triv), ?_, (by triv), (by triv)⟩
+      show (s.hs ++ [h]).filter _ = _
+      simp [List.filter_append, ht, hkj]
+  | call i =>
+    simp only [step]
+    cases hi : s.hs[i]? with
+    | none => exact ⟨(by triv), (by triv), (by triv), (by triv)⟩
+    | some h =>
+      simp only
+      split <;> exact ⟨(by triv), (by triv), (by triv), (by triv)⟩
+  | dropHandle i =>
+    simp only [target] at ht
+    cases hi : s.hs[i]? with
+    | none => simp [hi] at ht
+    | some h =>
+      simp only [hi, Option.map_some, Option.some.injEq] at ht
+      have hmem : h ∈ s.hs := List.mem_of_getElem? hi
+      have hh := hc.holds h hmem
+      have hns : FreeSite.handleDrop ∉ F.freeSites := by rw [hG.sites]; decide
+      simp only [step, hi, hns, if_false, hh, if_true]
+      have hk : 0 < s.strong h.k := hI.strong_pos_of_handle hmem
+      have hc1 : InvCore { s with hs := s.hs.eraseIdx i } :=
+        ⟨fun x hx => hc.holds x (List.mem_of_mem_eraseIdx hx), hc.alive_cnt, hc.constRc_eq, hc.closRc_eq,
+          hc.const_rel, hc.const_ever, hc.clos_rel, hc.clos_ever, hc.code_rel, hc.mapped_eq, hc.compiled_strong,
+          hc.sc_rel, hc.no_fault, fun x hx => hc.expect_ok x (List.mem_of_mem_eraseIdx hx), hc.uses⟩
+      obtain ⟨_, _, hp, hhs, hinfo, hcomp⟩ := decModule_inv hG { s with hs := s.hs.eraseIdx i } h.k hc1 hk
+      rw [hp, hhs, hinfo, hcomp]
+      refine ⟨(by triv), ?_, (by triv), (by triv)⟩
+      obtain ⟨hlt, hget⟩ := List.getElem?_eq_some_iff.1 hi
+      show (s.hs.eraseIdx i).filter _ = _
+      apply filter_eraseIdx_of_not _ _ _ hlt
+      rw [hget, ht]; exact hkj
+  | dropPackage k' =>
+    simp only [target, Option.some.injEq] at ht; subst ht
+    simp only [valid, List.contains_eq_mem, decide_eq_true_eq] at hv
+    have hns : FreeSite.packageDrop ∉ F.freeSites := by rw [hG.sites]; decide
+    simp only [step, hns, if_false]
+    have hpos : 0 < s.strong k' := hI.strong_pos_of_pkg hv
+    have hc1 : InvCore { s with pkgs := s.pkgs.erase k' } :=
+      ⟨hc.holds, hc.alive_cnt, hc.constRc_eq, hc.closRc_eq, hc.const_rel, hc.const_ever, hc.clos_rel, hc.clos_ever,
+        hc.code_rel, hc.mapped_eq, hc.compiled_strong, hc.sc_rel, hc.no_fault, hc.expect_ok, hc.uses⟩
+    obtain ⟨_, _, hp, hhs, hinfo, hcomp⟩ := decModule_inv hG { s with pkgs := s.pkgs.erase k' } k' hc1 hpos
+    rw [hp, hhs, hinfo, hcomp]
+    refine ⟨?_, (by triv), (by triv), (by triv)⟩
+    show (s.pkgs.erase k').count j = _
+    exact List.count_erase_of_ne hjk
+
+/-- two states satisfying the invariant that agree on j's owners and static data agree on everything observable of j -/
+theorem obs_eq_of_frame {s s' : St} (hI : Inv s) (hI' : Inv s') (j : Nat)
+    (hp : s'.pkgs.count j = s.pkgs.count j)
+    (hh : s'.hs.filter (fun h => h.k == j) = s.hs.filter (fun h => h.k == j))
+    (hinfo : s'.info j = s.info j) (hcomp : j ∈ s'.compiled ↔ j ∈ s.compiled) :
+    obs s' j = obs s j := by
+  have hst : s'.strong j = s.strong j := by
+    rw [hI'.strong_eq, hI.strong_eq]
+    simp only [owners, List.countP_eq_length_filter, hp, hh]
+  have h1 : s'.pkgs.contains j = s.pkgs.contains j := by
+    have a : (s'.pkgs.contains j = true) ↔ (s.pkgs.contains j = true) := by
+      simp only [List.contains_eq_mem, decide_eq_true_eq]
+      rw [← List.count_pos_iff, ← List.count_pos_iff, hp]
+    cases h : s.pkgs.contains j <;> cases h' : s'.pkgs.contains j <;> simp_all
+  have h2 : s'.mapped j = s.mapped j := by rw [hI'.mapped_eq, hI.mapped_eq, hst]
+  have h3 : s'.relCount (.code j) = s.relCount (.code j) := by
+    rw [hI'.code_rel, hI.code_rel, hst]
+    by_cases a : j ∈ s.compiled
+    · simp [a, hcomp.2 a]
+    · have : j ∉ s'.compiled := fun x => a (hcomp.1 x)
+      simp [a, this]
+  have h4 : ∀ c, s'.relCount (.scriptConst j c) = s.relCount (.scriptConst j c) := by
+    intro c
+    rw [hI'.sc_rel, hI.sc_rel, hst, hinfo]
+    by_cases a : j ∈ s.compiled
+    · simp [a, hcomp.2 a]
+    · have : j ∉ s'.compiled := fun x => a (hcomp.1 x)
+      simp [a, this]
+  simp only [obs, h1, h2, h3, hinfo, hh, h4]
+  congr 1
+  apply List.map_congr_left
+  intro h hm
+  have hmem : h ∈ s.hs := (List.mem_filter.1 hm).1
+  have hmem' : h ∈ s'.hs := by rw [← hh] at hm; exact (List.mem_filter.1 hm).1
+  have hkj : h.k = j := by simpa using (List.mem_filter.1 hm).2
+  rw [callRes_ok hI.toInvCore (hI.strong_pos_of_handle hmem),
+    callRes_ok hI'.toInvCore (hI'.strong_pos_of_handle hmem'), hkj, hinfo]
+
+/-! ### who refers to what -/
+
+/-- a live package or a live handle of version k -/
+def RefersModule (s : St) (k : Nat) : Prop := k ∈ s.pkgs ∨ ∃ h ∈ s.hs, h.k = k
+
+/-- the live runtime that registered it, or a module somebody still refers to that cloned it -/
+def RefersConst (s : St) (r : Nat) : Prop :=
+  r ∈ s.rtConst ∨ ∃ k, RefersModule s k ∧ (s.info k).rt = r ∧ (s.info k).keepConst = true
+
+def RefersClos (s : St) (r : Nat) : Prop :=
+  r ∈ s.rtClos ∨ ∃ k, RefersModule s k ∧ (s.info k).rt = r ∧ (s.info k).keepClos = true
+
+theorem strong_zero_iff {s : St} (hI : Inv s) (k : Nat) : s.strong k = 0 ↔ ¬ RefersModule s k := by
+  rw [hI.strong_eq]
+  simp only [owners, RefersModule]
+  constructor
+  · intro h0
+    have a : s.pkgs.count k = 0 := by omega
+    have b : s.hs.countP (fun h => h.k == k) = 0 := by omega
+    rintro (hp | ⟨h, hh, e⟩)
+    · exact (List.count_eq_zero.1 a) hp
+    · have := (List.countP_eq_zero.1 b) h hh
+      simp [e] at this
+  · intro hn
+    have a : s.pkgs.count k = 0 := List.count_eq_zero.2 (fun hp => hn (Or.inl hp))
+    have b : s.hs.countP (fun h => h.k == k) = 0 :=
+      List.countP_eq_zero.2 (fun h hh hp => hn (Or.inr ⟨h, hh, by simpa using hp⟩))
+    omega
+
+theorem alive_iff {s : St} (hI : Inv s) (k : Nat) : k ∈ s.alive ↔ RefersModule s k := by
+  have hz := strong_zero_iff hI k
+  constructor
+  · intro hk
+    apply Classical.byContradiction
+    intro hn
+    have h0 := hz.2 hn
+    have := hI.alive_cnt k
+    simp only [h0, Nat.lt_irrefl, if_false] at this
+    exact (List.count_eq_zero.1 this) hk
+  · intro hr
+    have : ¬ s.strong k = 0 := fun h0 => (hz.1 h0) hr
+    exact hI.toInvCore.mem_alive (by omega)
+
+theorem constRc_zero_iff {s : St} (hI : Inv s) (r : Nat) : s.constRc r = 0 ↔ ¬ RefersConst s r := by
+  rw [hI.constRc_eq]
+  constructor
+  · intro h0
+    have a : s.rtConst.count r = 0 := by omega
+    have b : s.alive.countP (constPred s.info r) = 0 := by omega
+    rintro (hp | ⟨k, hk, e, hkc⟩)
+    · exact (List.count_eq_zero.1 a) hp
+    · have := (List.countP_eq_zero.1 b) k ((alive_iff hI k).2 hk)
+      simp [constPred, e, hkc] at this
+  · intro hn
+    have a : s.rtConst.count r = 0 := List.count_eq_zero.2 (fun hp => hn (Or.inl hp))
+    have b : s.alive.countP (constPred s.info r) = 0 :=
+      List.countP_eq_zero.2 (fun k hk hp => by
+        simp only [constPred, Bool.and_eq_true, beq_iff_eq] at hp
+        exact hn (Or.inr ⟨k, (alive_iff hI k).1 hk, hp.2, hp.1⟩))
+    omega
+
+theorem closRc_zero_iff {s : St} (hI : Inv s) (r : Nat) : s.closRc r = 0 ↔ ¬ RefersClos s r := by
+  rw [hI.closRc_eq]
+  constructor
+  · intro h0
+    have a : s.rtClos.count r = 0 := by omega
+    have b : s.alive.countP (closPred s.info r) = 0 := by omega
+    rintro (hp | ⟨k, hk, e, hkc⟩)
+    · exact (List.count_eq_zero.1 a) hp
+    · have := (List.countP_eq_zero.1 b) k ((alive_iff hI k).2 hk)
+      simp [closPred, e, hkc] at this
+  · intro hn
+    have a : s.rtClos.count r = 0 := List.count_eq_zero.2 (fun hp => hn (Or.inl hp))
+    have b : s.alive.countP (closPred s.info r) = 0 :=
+      List.countP_eq_zero.2 (fun k hk hp => by
+        simp only [closPred, Bool.and_eq_true, beq_iff_eq] at hp
+        exact hn (Or.inr ⟨k, (alive_iff hI k).1 hk, hp.2, hp.1⟩))
+    omega
+
+theorem exactly_once_of {P Q : Prop} [Decidable P] {n : Nat} (h : n = if P then 1 else 0) (hpq : P ↔ Q) :
+    (n = 1 ↔ Q) ∧ (n = 0 ↔ ¬ Q) ∧ n ≤ 1 := by
+  by_cases hp : P
+  · simp only [hp, if_true] at h; subst h
+    have q := hpq.1 hp
+    refine ⟨⟨fun _ => q, fun _ => rfl⟩, ⟨fun e => ?_, fun nq => absurd q nq⟩, Nat.le_refl 1⟩
+    exact absurd e (by decide)
+  · simp only [hp, if_false] at h; subst h
+    have nq : ¬ Q := fun q => hp (hpq.2 q)
+    refine ⟨⟨fun e => ?_, fun q => absurd q nq⟩, ⟨fun _ => nq, fun _ => rfl⟩, Nat.zero_le 1⟩
+    exact absurd e (by decide)
+
+/-- how often `x` has been released so far is 1 exactly when `Gone`, 0 exactly when not, never more -/
+def ExactlyOnce (n : Nat) (Gone : Prop) : Prop := (n = 1 ↔ Gone) ∧ (n = 0 ↔ ¬ Gone) ∧ n ≤ 1
+
+
 end RotoV.Lifetime
